@@ -206,7 +206,9 @@ impl LogStore for RocksDBLogStore {
             .map_err(|e| StorageError::DbError(e.to_string()))?;
 
         if max_index > 0 {
-            self.last_index.store(max_index, Ordering::SeqCst);
+            // highest index held, not highest of this batch (a batch may re-write entries
+            // below the current end)
+            self.last_index.fetch_max(max_index, Ordering::SeqCst);
         }
 
         Ok(())
@@ -364,7 +366,8 @@ impl LogStore for RocksDBLogStore {
 
         // Update last_index: The new last_index should be from_index - 1
         // But if from_index is 0 or 1, last_index should be 0
-        let new_last_index = from_index.saturating_sub(1);
+        // (truncating from beyond the end removes nothing and must not raise the last index)
+        let new_last_index = from_index.saturating_sub(1).min(current_last_index);
 
         self.last_index.store(new_last_index, Ordering::SeqCst);
 
@@ -392,8 +395,9 @@ impl LogStore for RocksDBLogStore {
         let end_key = Self::index_to_key(u64::MAX);
         batch.delete_range_cf(&cf, start_key, end_key);
 
-        let new_last_index =
-            new_entries.last().map(|e| e.index).unwrap_or(from_index.saturating_sub(1));
+        let new_last_index = new_entries.iter().map(|e| e.index).max().unwrap_or_else(|| {
+            from_index.saturating_sub(1).min(self.last_index.load(Ordering::SeqCst))
+        });
         for entry in &new_entries {
             batch.put_cf(&cf, Self::index_to_key(entry.index), entry.encode_to_vec());
         }
